@@ -87,6 +87,7 @@ pub fn abort_name(a: Option<Abort>) -> &'static str {
         Some(Abort::Deadlock) => "deadlock",
         Some(Abort::Horizon) => "horizon",
         Some(Abort::Diverged) => "diverged",
+        Some(Abort::Panicked) => "panicked",
     }
 }
 
